@@ -273,3 +273,12 @@ func ZZ_C19_bmc() {
 }
 
 var _ = cptvframe.NewFrame
+
+// replay entries of this file (registered here so that the file can be left out
+// on its own when it does not compile against the tree under check)
+func init() {
+	zzEntries["ZZ_C19_init"] = ZZ_C19_init
+	zzEntries["ZZ_C19_ops"] = ZZ_C19_ops
+	zzEntries["ZZ_C19_observe"] = ZZ_C19_observe
+	zzEntries["ZZ_C19_bmc"] = ZZ_C19_bmc
+}
